@@ -22,6 +22,13 @@ def correspondence(ctx):
     rng = ctx.rng
     cases = []
     recs = list(WITNESSES)
+    # the simple path (nothing required) at lengths whose counts leave the float64 range (a^L >= 2^1024) and far beyond
+    big = (170, 171, 172, 200, 342, 1000, 3000, 12000) if ctx.tier == "thorough" else (171, 172, 1000)
+    alphas = (dict(allow=15, exclude=16), dict(allow=4), dict(allow_chars="ab"), dict(allow=3, allow_chars="é€"), dict(allow=8, exclude_chars="!"))
+    for L in big:
+        for kw in (alphas if ctx.tier == "thorough" else alphas[:3]):
+            recs.append(Recipe(L, **kw))
+    recs.append(Recipe(3000, allow=15, exclude=16))
     n = 500 if ctx.tier == "quick" else 6000
     for _ in range(n):
         r = chargen.gen_recipe(rng, big_lengths=(rng.random() < 0.12))
